@@ -113,6 +113,9 @@ func issuerFromForwardedOrHost(path string, c *issuerConfig) func(bool) (IssuerF
 		if err != nil {
 			return nil, ErrInvalidIssuerURL
 		}
+		if hasQueryOrFragment(path) {
+			return nil, ErrInvalidIssuerPath
+		}
 		if err := ValidateIssuerPath(issuerPath); err != nil {
 			return nil, err
 		}
@@ -166,14 +169,23 @@ func ValidateIssuer(issuer string, allowInsecure bool) error {
 			return ErrInvalidIssuerHTTPS
 		}
 	}
+	if hasQueryOrFragment(issuer) {
+		return ErrInvalidIssuerPath
+	}
 	return ValidateIssuerPath(u)
 }
 
 func ValidateIssuerPath(issuer *url.URL) error {
-	if issuer.Fragment != "" || len(issuer.Query()) > 0 {
+	if issuer.Fragment != "" || issuer.RawQuery != "" || issuer.ForceQuery {
 		return ErrInvalidIssuerPath
 	}
 	return nil
+}
+
+// hasQueryOrFragment reports whether the not yet parsed issuer (or issuer path) carries a query or a fragment,
+// including an empty one ("https://host/path?", "https://host/path#"), which url.URL does not fully record
+func hasQueryOrFragment(raw string) bool {
+	return strings.ContainsAny(raw, "?#")
 }
 
 func devLocalAllowed(url *url.URL, allowInsecure bool) bool {
